@@ -24,3 +24,4 @@ def run(repo, res, tier):
     multidict.rule_is_value(repo, res)
     multidict.rule_m4_eq(repo, res)
     multidict.rule_p8(repo, res)
+    multidict.rule_p9(repo, res)
